@@ -513,3 +513,46 @@ M("C13", "renderer-expands-tabs-in-items", F, "                        yield x\n
 M("C13", "renderer-tidies-blank-before-brace-in-result", F, _RENDER,
   "        text = Reconstructor(c2profile_parser).reconstruct(self.tree, postproc)\n        return text.replace(\" }\", \"}\")\n", "C13.R12")
 T("C13", "twin-renderer-named-result", F, _RENDER, "        text = Reconstructor(c2profile_parser).reconstruct(self.tree, postproc=postproc)\n        return text\n")
+
+# (e) R13: assembly order and object identity - what is put into a builder object reaches the returned profile (the emptiness of
+# a block is tested only when the block is complete) and one builder object stands for one block
+_EPILOGUE = (
+    "        http_get.set_non_empty_config_block(\"client\", http_get_client)\n        profile.set_non_empty_config_block(\"http_get\", http_get)\n"
+    "        http_post.set_non_empty_config_block(\"client\", http_post_client)\n        profile.set_non_empty_config_block(\"http_post\", http_post)\n"
+    "        profile.set_non_empty_config_block(\"stage\", stage)\n        profile.set_non_empty_config_block(\"process_inject\", proc_inj)\n"
+    "        profile.set_non_empty_config_block(\"dns_beacon\", dns_beacon)\n        profile.set_non_empty_config_block(\"http_beacon\", http_beacon)\n"
+)
+_POST_EPI = "        http_post.set_non_empty_config_block(\"client\", http_post_client)\n        profile.set_non_empty_config_block(\"http_post\", http_post)\n"
+_DNS_EPI = "        profile.set_non_empty_config_block(\"dns_beacon\", dns_beacon)\n"
+_STAGE_NEW = "        stage = StageBlock()\n"
+_CLIENTS_NEW = "        http_get_client = HttpOptionsBlock()\n        http_post_client = HttpOptionsBlock()\n"
+_PROCINJ_NEW = "        proc_inj = ProcessInjectBlock()\n"
+_TB_NEW = "                transform_block = StageTransformBlock()\n"
+
+
+def _epilogue_table(rows):
+    return ("        for parent, option, block in (\n" + "".join(f"            ({p}, \"{o}\", {b}),\n" for p, o, b in rows) +
+            "        ):\n            parent.set_non_empty_config_block(option, block)\n")
+
+
+_ROWS_INNER_FIRST = [("http_get", "client", "http_get_client"), ("profile", "http_get", "http_get"), ("http_post", "client", "http_post_client"),
+                     ("profile", "http_post", "http_post"), ("profile", "stage", "stage"), ("profile", "process_inject", "proc_inj"),
+                     ("profile", "dns_beacon", "dns_beacon"), ("profile", "http_beacon", "http_beacon")]
+_ROWS_POST_OUTER_FIRST = _ROWS_INNER_FIRST[:2] + [_ROWS_INNER_FIRST[3], _ROWS_INNER_FIRST[2]] + _ROWS_INNER_FIRST[4:]
+T("C13", "twin-epilogue-table-inner-blocks-first", F, _EPILOGUE, _epilogue_table(_ROWS_INNER_FIRST))
+M("C13", "epilogue-table-http-post-before-its-client", F, _EPILOGUE, _epilogue_table(_ROWS_POST_OUTER_FIRST), "C13.R13")
+M("C13", "epilogue-http-post-attached-before-its-client", F, _POST_EPI,
+  "        profile.set_non_empty_config_block(\"http_post\", http_post)\n        http_post.set_non_empty_config_block(\"client\", http_post_client)\n", "C13.R13")
+T("C13", "twin-epilogue-top-level-blocks-reordered", F, _STAGE_EPI + "        profile.set_non_empty_config_block(\"process_inject\", proc_inj)\n",
+  "        profile.set_non_empty_config_block(\"process_inject\", proc_inj)\n" + _STAGE_EPI)
+M("C13", "stage-attached-when-it-is-made", F, "", "", "C13.R13", edits=[(F, _STAGE_EPI, ""), (F, _STAGE_NEW, _STAGE_NEW + _STAGE_EPI)])
+M("C13", "stage-guarded-attachment-when-it-is-made", F, "", "", "C13.R13",
+  edits=[(F, _STAGE_EPI, ""), (F, _STAGE_NEW, _STAGE_NEW + "        if stage.tree.children:\n            profile.set_config_block(\"stage\", stage)\n")])
+M("C13", "dns-beacon-block-never-attached", F, _DNS_EPI, "", "C13.R13")
+M("C13", "clients-share-one-options-block", F, _CLIENTS_NEW, "        http_get_client = http_post_client = HttpOptionsBlock()\n", "C13.R13")
+# the process-inject transform block made once, before the settings loop, for both architectures (the two branches as they are)
+M("C13", "transform-block-made-once-for-both-architectures", F, "", "", "C13.R13",
+  edits=[(F, _PROCINJ_NEW, _PROCINJ_NEW + "        transform_block = StageTransformBlock()\n"), (F, _TB_NEW, ""), (F, _TB_NEW, "")])
+T("C13", "twin-transform-blocks-made-before-the-loop-one-each", F, "", "", edits=[
+    (F, _PROCINJ_NEW, _PROCINJ_NEW + "        transform_x86 = StageTransformBlock()\n        transform_x64 = StageTransformBlock()\n"),
+    (F, _TB_NEW, "                transform_block = transform_x86\n"), (F, _TB_NEW, "                transform_block = transform_x64\n")])
